@@ -30,6 +30,9 @@ type Obligation struct {
 	Desc   string
 	Inputs []inputSym
 	Draws  []string
+	// cover-call obligations: the script before the callee's postconditions were assumed (to tell a contradictory
+	// contract from a call site that is unreachable anyway)
+	PreScript *scriptNode
 	// results
 	Res solveResult
 }
@@ -545,7 +548,9 @@ func (x *Exec) VerifyFunc(key string) (err error) {
 	}
 	for k := range c.LoopInv {
 		if k >= len(x.loops(fn).heads) {
-			return fmt.Errorf("cannot bind loop %d of %s: the function has %d loops", k, key, len(x.loops(fn).heads))
+			// invariants of a loop that is no longer there have nothing to hold at; the remaining obligations
+			// of the contract decide
+			x.warnings = append(x.warnings, fmt.Sprintf("invariants of loop %d of %s are not bound: the function has %d loops", k, key, len(x.loops(fn).heads)))
 		}
 	}
 	defer func() {
@@ -589,6 +594,26 @@ func (x *Exec) VerifyFunc(key string) (err error) {
 	// assume requires
 	env := x.contractEnvAtEntry(st, fr, c)
 	for _, r := range c.Requires {
+		if r.Assume {
+			// an entry assumption (assumes-pre / defines) about something that no longer exists in the function is
+			// dropped, not an error: assuming less can only make the obligations harder
+			dropped := false
+			func() {
+				defer func() {
+					if rec := recover(); rec != nil {
+						se, isSpec := rec.(specError)
+						if !isSpec || !strings.Contains(se.msg, "unknown identifier") {
+							panic(rec)
+						}
+						dropped = true
+						x.warnings = append(x.warnings, "entry assumption dropped ("+se.msg+")")
+					}
+				}()
+				st.assume(x.evalBool(env, r.Expr, r))
+			}()
+			_ = dropped
+			continue
+		}
 		t := x.evalBool(env, r.Expr, r)
 		st.assume(t)
 	}
